@@ -416,3 +416,63 @@ func VPath1InsidePath2(ring1, ring2 Path64) bool {
 
 // VGetCleanPath runs the real getCleanPath on a synthetic output ring (≥ 1 point).
 func VGetCleanPath(ring Path64) Path64 { return getCleanPath(vSynthRing(&OutRec{}, ring)) }
+
+// VAelEdge is what isValidAelOrder / insertLeftEdge read of an active edge.
+type VAelEdge struct {
+	CurX          int64
+	Bot, Top      Point64
+	IsMax         bool
+	NextPt, PpvPt Point64
+	IsLeft        bool
+	LmY           int64
+	JoinRight     bool
+}
+
+func vSynthAelEdge(e VAelEdge) *Active {
+	flags := None
+	if e.IsMax {
+		flags = LocalMax
+	}
+	vt := &Vertex{pt: e.Top, flags: flags}
+	vt.next = &Vertex{pt: e.NextPt, prev: vt}
+	vb := &Vertex{pt: e.Bot, next: vt}
+	vt.prev = vb
+	vb.prev = &Vertex{pt: e.PpvPt, next: vb}
+	ae := &Active{bot: e.Bot, top: e.Top, curX: e.CurX, windDx: 1, vertexTop: vt, isLeftBound: e.IsLeft,
+		localMin: &LocalMinima{Vertex: &Vertex{pt: Point64{X: e.Bot.X, Y: e.LmY}}}}
+	if e.JoinRight {
+		ae.joinWith = JoinRight
+	}
+	return ae
+}
+
+// VIsValidAelOrder runs the real isValidAelOrder on two synthetic active edges.
+func VIsValidAelOrder(resident, newcomer VAelEdge) bool {
+	return isValidAelOrder(vSynthAelEdge(resident), vSynthAelEdge(newcomer))
+}
+
+// VInsertLeftEdge links ael into an active-edge list, runs the real insertLeftEdge on ae and returns
+// the list afterwards as indices into ael (-1 for ae).
+func VInsertLeftEdge(ael []VAelEdge, ae VAelEdge) (order []int) {
+	c := newClipperBase()
+	idx := map[*Active]int{}
+	var prev *Active
+	for i, e := range ael {
+		a := vSynthAelEdge(e)
+		idx[a] = i
+		a.prevInAEL = prev
+		if prev != nil {
+			prev.nextInAEL = a
+		} else {
+			c.actives = a
+		}
+		prev = a
+	}
+	n := vSynthAelEdge(ae)
+	idx[n] = -1
+	c.insertLeftEdge(n)
+	for a := c.actives; a != nil; a = a.nextInAEL {
+		order = append(order, idx[a])
+	}
+	return order
+}
